@@ -27,6 +27,7 @@ GATES = ("status.LocallyInfeasible", "status.Unbounded", "status.IterationLimit"
 def generate(rng, seed, index, tier):
     fam = str(rng.choice(["infeasible", "unbounded", "degenerate", "qp", "nlp"], p=[0.3, 0.25, 0.1, 0.2, 0.15]))
     spec, x0, y0 = gen.gen_problem(rng, fam)
+    x0 = gen.magnify(rng, spec, x0, p=0.1)
     kw = gen.gen_params(rng, spec, x0, y0, p_knob=0.45, reporting=False, globalized=False, numeric=0.15)
     kw["iteration_limit"] = int(rng.choice([0, 1, 2, 3, 10, 30, 200, 600], p=[0.03, 0.04, 0.04, 0.09, 0.2, 0.25, 0.25, 0.1]))
     clock = gen.gen_clock(rng, n=3000, kind=str(rng.choice(["const", "tick", "random", "stall-jump"], p=[0.15, 0.2, 0.3, 0.35])))
